@@ -18,7 +18,7 @@ def registry(name):
 def reg_values(name): return [v for _, v in registry(name)]
 
 BLEN = [0, 1, 2, 23, 24, 255, 256]
-INTS = [0, 1, 2, 3, 4, 5, 6, 7, 8, 9, 10, 23, 24, 25, 255, 256, 257, 65535, 65536, 2**32 - 1, 2**32, 2**63 - 2, 2**63 - 1,
+INTS = [0, 1, 2, 3, 4, 5, 6, 7, 8, 9, 10, 23, 24, 25, 255, 256, 257, 65535, 65536, 2**32 - 1, 2**32, 2**63 - 2, 2**63 - 1, 127, 128, 32767, 32768, 2**31 - 1, 2**31, 2**24, 2**53, -128, -129, -32768, -32769, -2**31, -2**31 - 1,
         -1, -2, -24, -25, -256, -257, -65535, -65536, -65537, -65538, -2**32, -2**32 - 1, -2**63 + 1, -2**63]
 WIDE = [2**63, 2**63 + 1, 2**64 - 2, 2**64 - 1, -2**63 - 1, -2**63 - 2, -2**64 + 1, -2**64]
 TEXTS = [b'', b'a', b'b', b'aa', b'ab', b'a/b', b'text/plain', b' a/b', b'a/b ', b'a/b/c', 'é/x'.encode(), b'x' * 23, b'x' * 24, 'a '.encode(), ' a/b'.encode(),
